@@ -74,6 +74,21 @@ def main(argv):
             _emit(f, {"init_s": _perf() - t0, "shard": shard})
             t0 = _perf()  # the soft budget covers exploration, not interpreter start-up / JIT
             done = 0
+            if shard == 0 and hasattr(mod, "run_pinned"):
+                # the specific inputs of the recorded known findings are exercised on every run, so
+                # that each finding is reported (KNOWN-FINDING) while it exists and vanishes when fixed
+                kf = os.path.join(os.path.dirname(os.path.abspath(__file__)), "known_findings.json")
+                if os.path.exists(kf):
+                    with open(kf) as fh:
+                        entries = json.load(fh).get("findings", [])
+                    for e in entries:
+                        if e.get("property") == prop and e.get("status") == "known" and e.get("pinned"):
+                            faulthandler.dump_traceback_later(float(cfg.get("per_seed_s", 300)), exit=True)
+                            res = mod.run_pinned(e["pinned"], dict(ctx, role=0))
+                            faulthandler.cancel_dump_traceback_later()
+                            res["seed"] = -1
+                            res["role"] = 0
+                            _emit(f, res)
             for i, role in work:
                 if _perf() - t0 > float(cfg["soft_s"]):
                     break
